@@ -394,8 +394,9 @@ class DISPENSO_CACHELINE_ALIGNED ThreadPool {
       std::abort();
 #endif
     }
-    // Mark queue as possibly-non-empty so spinning workers will try_dequeue.
-    centralQueueNonEmpty_.store(true, std::memory_order_relaxed);
+    // Mark queue as possibly-non-empty so spinning workers will try_dequeue. Release: a worker that
+    // clears the hint (clearCentralQueueHint) and reads this store must also see the enqueue.
+    centralQueueNonEmpty_.store(true, std::memory_order_release);
   }
 
   // Push task i to ring i (linear layout) for fork-join scheduling.
@@ -426,6 +427,8 @@ class DISPENSO_CACHELINE_ALIGNED ThreadPool {
   // preferRing: sticky hint — true = try ring first, false = try central queue first.
   // failCount: consecutive failures finding work — used to gate cross-ring stealing
   //   so we preserve placed-scheduling locality during steady-state operation.
+  DISPENSO_INLINE void clearCentralQueueHint();
+
   DISPENSO_INLINE bool tryFindAndExecuteWork(
       Ring& myRing,
       StealRing& myStealRing,
@@ -780,6 +783,16 @@ inline void ThreadPool::executeNext(OnceFunction next) {
   workRemaining_.fetch_add(-1, std::memory_order_relaxed);
 }
 
+// Clears the central-queue hint after a failed dequeue. A producer may have enqueued and set the hint
+// between that dequeue and the clear; a plain store would overwrite its 'true' and leave a task queued
+// that no worker looks at until the idle-sleep backstop. So clear with an exchange and look once more.
+DISPENSO_INLINE void ThreadPool::clearCentralQueueHint() {
+  centralQueueNonEmpty_.exchange(false, std::memory_order_acq_rel);
+  if (work_.size_approx() != 0) {
+    centralQueueNonEmpty_.store(true, std::memory_order_release);
+  }
+}
+
 DISPENSO_INLINE bool ThreadPool::tryFindAndExecuteWork(
     Ring& myRing,
     StealRing& myStealRing,
@@ -804,8 +817,8 @@ DISPENSO_INLINE bool ThreadPool::tryFindAndExecuteWork(
         task();
         return true;
       }
-      // Empty on observation; clear flag (relaxed, plain store).
-      centralQueueNonEmpty_.store(false, std::memory_order_relaxed);
+      // Empty on observation; clear flag.
+      clearCentralQueueHint();
     }
     if (!myStealRing.empty() && myStealRing.try_pop(task)) {
       task();
@@ -836,7 +849,7 @@ DISPENSO_INLINE bool ThreadPool::tryFindAndExecuteWork(
         task();
         return true;
       }
-      centralQueueNonEmpty_.store(false, std::memory_order_relaxed);
+      clearCentralQueueHint();
     }
     bool fromRing = myRing.try_pop(task);
     if (fromRing) {
@@ -1014,8 +1027,8 @@ void ThreadPool::scheduleBulkEnqueue(
     std::abort();
 #endif
   }
-  // Mark queue as possibly-non-empty so spinning workers will try_dequeue.
-  centralQueueNonEmpty_.store(true, std::memory_order_relaxed);
+  // Mark queue as possibly-non-empty so spinning workers will try_dequeue (release, see above).
+  centralQueueNonEmpty_.store(true, std::memory_order_release);
 
   // Wake appropriate threads. Cap by actual sleeping count to avoid over-waking.
   // Spinning threads (numNotWorking - totalSleeping) will find enqueued work
